@@ -231,9 +231,22 @@ def query_text(ctx, ob, slim=False, drop=()):
     return "\n".join(parts) + "\n"
 
 
+def check_layouts(repo):
+    """The engine's tables of tuple layouts must agree with the NamedTuple declarations in the current source."""
+    from .symex import TUPLE_FIELDS
+    for name, fields in TUPLE_FIELDS.items():
+        cnode = repo.classes.get(("api", name))
+        if cnode is None:
+            raise Demoted(f"class {name} not found in curies.api")
+        declared = [n.target.id for n in cnode.body if isinstance(n, ast.AnnAssign) and isinstance(n.target, ast.Name)]
+        if declared != list(fields) or [b.id for b in cnode.bases if isinstance(b, ast.Name)] != ["NamedTuple"]:
+            raise Demoted(f"layout of {name} is {declared}, the verifier's table says {list(fields)}")
+
+
 def build_engine(module="api"):
     loader.load()
     repo = get_repo()
+    check_layouts(repo)
     ctx = Ctx()
     copts = {q: ci.opts for q, ci in spec.CONTRACTS.items()}
     eng = Executor(repo, ctx, loader.HELPERS, loader.CONTRACT_AST, copts, invariants=loader.INVARIANT_AST)
